@@ -7,6 +7,7 @@ host.Set (public API) and the real Monitor with a scripted checker.
 -/
 import SamVerif.Proofs.HostSet
 import SamVerif.Proofs.HostSetConc
+import SamVerif.Gen.HostSet
 namespace SamVerif.Props.C15
 open SamVerif.HostSet SamVerif.Proofs.HostSet
 
@@ -468,6 +469,91 @@ theorem overlapping_marks_would_lose_a_host :
     s4.flag 1 = true ∧ s4.all 7 = some 1 ∧ healthy s4 = [] ∧ usableSpec s4 = [(7, 1)] := by
   decide
 
+/-- **The code the model was written against.** The statements of the modelled functions,
+regenerated from the current source on every run, are the ones the model was written against;
+any edit to one of them makes this obligation fail and starts a search for a failing input. -/
+theorem code_matches_model :
+    Gen.HostSet.setAdd =
+      ["if len(hosts) == 0 { return }",
+      "for _, host := range hosts { if old, ok := set.all[host.Addr]; ok && old != host { if IsEqual(old, host) { continue } set.dropHealthy(old) old.markRemoved() } set.all[host.Addr] = host if host.IsHealthy() { set.addToHealthy(host) } }",
+      "set.buildHealthyCache()"] ∧
+    Gen.HostSet.setRemove =
+      ["if len(hosts) == 0 { return }",
+      "for _, host := range hosts { if stored, ok := set.all[host.Addr]; ok { delete(set.all, host.Addr) stored.markRemoved() set.dropHealthy(stored) } host.markRemoved() }",
+      "set.removeFromHealthy(hosts...)"] ∧
+    Gen.HostSet.dropHealthy =
+      ["switch h.Type { case TypeMain: delete(set.healthyMain, h.Addr) case TypeBackup: delete(set.healthyBackup, h.Addr) }"] ∧
+    Gen.HostSet.addToHealthy =
+      ["if len(host) == 0 { return }",
+      "for _, h := range host { if h == nil { continue } switch h.Type { case TypeMain: set.healthyMain[h.Addr] = h case TypeBackup: set.healthyBackup[h.Addr] = h default: continue } }",
+      "set.buildHealthyCache()"] ∧
+    Gen.HostSet.removeFromHealthy =
+      ["if len(host) == 0 { return }",
+      "for _, h := range host { if h == nil { continue } switch h.Type { case TypeMain: delete(set.healthyMain, h.Addr) case TypeBackup: delete(set.healthyBackup, h.Addr) default: continue } }",
+      "set.buildHealthyCache()"] ∧
+    Gen.HostSet.buildHealthyCache =
+      ["hostMap := set.healthy()",
+      "keys := make([]string, 0, len(hostMap))",
+      "for k := range hostMap { keys = append(keys, k) }",
+      "sort.Strings(keys)",
+      "hosts := make([]*Host, 0, len(hostMap))",
+      "for _, k := range keys { hosts = append(hosts, hostMap[k]) }",
+      "set.healthyCache.Store(hosts)"] ∧
+    Gen.HostSet.markHealthy =
+      ["if !host.setHealthy() { return false }",
+      "verifPause(\"set.mark.flagged\", host)",
+      "set.Lock()",
+      "defer set.Unlock()",
+      "if stored, ok := set.all[host.Addr]; !ok || stored != host { return false }",
+      "set.addToHealthy(host)",
+      "return true"] ∧
+    Gen.HostSet.markUnhealthy =
+      ["if !host.setUnhealthy() { return false }",
+      "verifPause(\"set.mark.flagged\", host)",
+      "set.Lock()",
+      "defer set.Unlock()",
+      "if stored, ok := set.all[host.Addr]; !ok || stored != host { return false }",
+      "set.removeFromHealthy(host)",
+      "return true"] ∧
+    Gen.HostSet.healthyTier =
+      ["healthyHosts := set.healthyMain",
+      "if len(healthyHosts) == 0 { healthyHosts = set.healthyBackup }",
+      "return healthyHosts"] ∧
+    Gen.HostSet.healthyList =
+      ["hosts, _ := set.healthyCache.Load().([]*Host)",
+      "return hosts"] ∧
+    Gen.HostSet.replaceAll =
+      ["set.Lock()",
+      "defer set.Unlock()",
+      "for _, host := range set.all { set.remove(host) }",
+      "set.add(hosts...)"] ∧
+    Gen.HostSet.setHealthyFlag =
+      ["stats.successfulCount.Store(0)",
+      "stats.failedCount.Store(0)",
+      "return stats.isHealthy.CAS(false, true)"] ∧
+    Gen.HostSet.setUnhealthyFlag =
+      ["stats.successfulCount.Store(0)",
+      "stats.failedCount.Store(0)",
+      "return stats.isHealthy.CAS(true, false)"] ∧
+    Gen.HostSet.incFailed =
+      ["stats.successfulCount.Store(0)",
+      "return stats.failedCount.Inc()"] ∧
+    Gen.HostSet.incSuccessful =
+      ["stats.failedCount.Store(0)",
+      "return stats.successfulCount.Inc()"] ∧
+    Gen.HostSet.markRemoved =
+      ["h.removeOnce.Do(func() { close(h.removeCh) })"] ∧
+    Gen.HostSet.checkHostAndUpdateStatus =
+      ["if m.checkHost(host) { if host.IncSuccessfulCount() > uint64(m.config.RiseThreshold) { if m.hostSet.MarkHostHealthy(host) { m.logger.Infof(\"Host %s is healthy\", host) } } return }",
+      "if host.IncFailedCount() > uint64(m.config.FallThreshold) { if m.hostSet.MarkHostUnhealthy(host) { m.logger.Warnf(\"Host %s is unhealthy\", host) } }"] ∧
+    Gen.HostSet.checkHosts =
+      ["hosts := m.hostSet.All()",
+      "var ( concurrency = MinInt(len(hosts), MaximumConcurrency) hostCh = make(chan *hostpkg.Host, concurrency) wg sync.WaitGroup )",
+      "go func() { for _, host := range hosts { hostCh <- host } close(hostCh) }()",
+      "for i := 0; i < concurrency; i++ { wg.Add(1) go func() { for host := range hostCh { m.checkHostAndUpdateStatus(host) } wg.Done() }() }",
+      "wg.Wait()"] := by
+  refine ⟨rfl, rfl, rfl, rfl, rfl, rfl, rfl, rfl, rfl, rfl, rfl, rfl, rfl, rfl, rfl, rfl, rfl, rfl⟩
+
 end SamVerif.Props.C15
 
 #print axioms SamVerif.Props.C15.usable_correct
@@ -480,3 +566,4 @@ end SamVerif.Props.C15
 #print axioms SamVerif.Props.C15.concurrent_usable_correct
 #print axioms SamVerif.Props.C15.concurrent_reports_members_only
 #print axioms SamVerif.Props.C15.overlapping_marks_would_lose_a_host
+#print axioms SamVerif.Props.C15.code_matches_model
